@@ -4083,6 +4083,14 @@ PPL::Polyhedron::wrap_assign(const Variables_Set& vars,
                              const Constraint_System* cs_p,
                              unsigned complexity_threshold,
                              bool wrap_individually) {
+  // `*cs_p' may be the constraint system of `*this' itself (e.g., as
+  // returned by constraints()), which is modified below: use a copy.
+  if (cs_p == &con_sys) {
+    const Constraint_System cs_copy(*cs_p);
+    wrap_assign(vars, w, r, o, &cs_copy,
+                complexity_threshold, wrap_individually);
+    return;
+  }
   if (is_necessarily_closed()) {
     Implementation::wrap_assign(static_cast<C_Polyhedron&>(*this),
                                 vars, w, r, o, cs_p,
